@@ -82,7 +82,8 @@ def writer_states(calls, split):
 
 
 def _worker(item):
-    first, depth, ai, seed = item
+    first, depth, ai, seed = item[:4]
+    sub = item[4] if len(item) > 4 else None     # restricted alphabet (shape indices) for the deeper quick-tier tree
     shapes = W.call_shapes()
     assign = W.assignments()[ai]
     res = {'counters': {'programs': 0, 'nontrivial': 0, 'with_index': 0}, 'outcomes': {}, 'violations': [], 'samples': [], 'distinct': set()}
@@ -117,7 +118,7 @@ def _worker(item):
                             res['samples'].append({'calls': calls, 'kinds': list(assign), 'split': split, 'version': version,
                                                    'dest': dest, 'index': index})
         if len(seq) < depth:
-            for i in range(len(shapes)):
+            for i in (sub if sub is not None else range(len(shapes))):
                 rec(seq + [i])
     rec([first])
     return res
@@ -132,6 +133,11 @@ def run(ctx):
     items = [(f, 2, ai, ctx.seed) for ai in range(nassign) for f in range(len(shapes))]
     if depth >= 3:
         items = [it for it in items if it[2] % 3] + [(f, 3, ai, ctx.seed) for ai in range(0, nassign, 3) for f in range(len(shapes))]
+    else:
+        # three calls over the sub-alphabet of shapes that repeat / reorder the same channels (what a writer may try to merge or
+        # abbreviate between calls only shows from the second call of a session on)
+        from .c07 import ORDER_SUB
+        items += [(f, 3, ai, ctx.seed, ORDER_SUB) for ai in range(0, nassign, 3) for f in ORDER_SUB]
     m = merge(ctx.map(_worker, items, chunksize=2))
     c = m['counters']
     vac = []
